@@ -1,6 +1,237 @@
 import OnetVerif.Model.C18
-/-! Property C18 — property theorems, negation witnesses, `_partial` variants and non-vacuity
-examples only (helper lemmas that need Mathlib go to OnetVerif/Proofs/). -/
+import OnetVerif.Proofs.C18Lemmas
+/-! Property C18 — configuration files round-trip and always yield the same identities.
+
+Property theorems over the model of `app/config.go` from the decoded TOML structures onwards
+(`Model/C18.lean`); helper lemmas in `Proofs/C18Lemmas.lean`.  A Go map is the list of its
+entries in iteration order; "whatever the iteration order" is a statement about all permutations. -/
 namespace C18
 
-end C18
+/-- two decoded server entries that differ at most in the iteration order of their `Services` map -/
+def SameUpToOrder (s s' : ServerToml) : Prop :=
+  s.address = s'.address ∧ s.suite = s'.suite ∧ s.pub = s'.pub ∧ s.description = s'.description ∧
+    s.url = s'.url ∧ s.services.Perm s'.services
+
+/-- element-wise relation of two lists of the same length -/
+inductive Forall2 {α β : Type} (R : α → β → Prop) : List α → List β → Prop
+  | nil : Forall2 R [] []
+  | cons {a b l l'} : R a b → Forall2 R l l' → Forall2 R (a :: l) (b :: l')
+
+/-- the keys of a map are distinct -/
+def DistinctNames (l : List SvcCfg) : Prop := (l.map (·.name)).Nodup
+
+/-! ### hex -/
+
+/-- **hex round trip**: a key of `l > 0` bytes written by `hex.EncodeToString` is read back by
+`getHex(_, l)` as exactly those bytes — whatever follows it in the text — and what `getHex`
+returns always has the requested length. -/
+theorem c18_hex_roundtrip (b : Bytes) (junk : Str) (hne : b ≠ []) (hb : ∀ x ∈ b, x < 256) :
+    getHex (hexEncode b ++ junk) b.length = some b ∧
+    (∀ (s : Str) (l : Nat) (b' : Bytes), getHex s l = some b' → b'.length = l ∧ ∀ x ∈ b', x < 256) :=
+  ⟨getHex_hexEncode junk hne hb, fun _ _ _ h => getHex_some h⟩
+
+/-! ### independence of the map iteration order -/
+
+theorem toServerIdentity_order {suites : List Suite} {reg : List (Str × Suite)} {s s' : ServerToml}
+    (h : SameUpToOrder s s') (hn : DistinctNames s.services) :
+    toServerIdentity suites reg s = toServerIdentity suites reg s' := by
+  obtain ⟨h1, h2, h3, h4, h5, h6⟩ := h
+  unfold toServerIdentity
+  rw [← h1, ← h2, ← h3, ← h4, ← h5, ← parseServices_perm h6 hn]
+
+/-- **the identities read from a group file, hence the roster id, do not depend on the iteration
+order of any `Services` map** (nor on the order of the service entries in the file): two decoded
+structures that agree up to the order of the map entries give the same result — the same list of
+identities with the same keys, addresses, URLs, descriptions and service identities in the same
+order, the same error, or the same panic. -/
+theorem c18_order_independent (suites : List Suite) (reg : List (Str × Suite))
+    (cfg cfg' : List ServerToml) (h : Forall2 SameUpToOrder cfg cfg')
+    (hn : ∀ s ∈ cfg, DistinctNames s.services) :
+    readGroup suites reg cfg = readGroup suites reg cfg' := by
+  have hs : readServers suites reg cfg = readServers suites reg cfg' := by
+    induction h with
+    | nil => rfl
+    | @cons a b l l' hh _ ih =>
+      simp only [readServers]
+      rw [toServerIdentity_order hh (hn a (by simp)), ih (fun s hs => hn s (by simp [hs]))]
+  unfold readGroup
+  rw [hs]
+
+/-- in particular the roster id (its SHA-256 pre-image) is the same -/
+theorem c18_roster_id_order_independent (suites : List Suite) (reg : List (Str × Suite))
+    (cfg cfg' : List ServerToml) (h : Forall2 SameUpToOrder cfg cfg')
+    (hn : ∀ s ∈ cfg, DistinctNames s.services) (g g' : List ServerId)
+    (hg : readGroup suites reg cfg = .ok g) (hg' : readGroup suites reg cfg' = .ok g') :
+    rosterPre g = rosterPre g' := by
+  rw [c18_order_independent suites reg cfg cfg' h hn, hg'] at hg
+  simp only [Res.ok.injEq] at hg
+  rw [hg]
+
+/-- the same for a private configuration -/
+theorem c18_private_order_independent (suites : List Suite) (reg : List (Str × Suite))
+    (hc : PrivCfg) (svcs' : List SvcCfg) (hp : hc.services.Perm svcs') (hn : DistinctNames hc.services) :
+    getServerIdentity suites reg (loadCothority { hc with services := svcs' }) =
+      getServerIdentity suites reg (loadCothority hc) := by
+  unfold getServerIdentity loadCothority
+  simp only
+  rw [← parseServices_perm hp hn]
+
+/-- the service identities of every server read are sorted by service name -/
+theorem c18_services_sorted (reg : List (Str × Suite)) (entries : List SvcCfg) (svcs : List SvcId)
+    (h : parseServices reg entries = some svcs) : svcs.Pairwise (fun a b => a.name ≤ b.name) := by
+  unfold parseServices at h
+  cases hc : collectServices reg entries with
+  | none => simp [hc] at h
+  | some l =>
+    simp only [hc, Option.map_some, Option.some.injEq] at h
+    subst h
+    have := sortServices_sorted l
+    simpa [nameLe] using this
+
+/-- the full statement for the code *before* the repair (identities collected in map order) -/
+def C18_order_full_old : Prop :=
+  ∀ (reg : List (Str × Suite)) (l l' : List SvcCfg), l.Perm l' → DistinctNames l →
+    parseServicesOld reg l = parseServicesOld reg l'
+
+/-- **negation witness**: two services `a`, `b`, two iteration orders, two different slices (and the
+roster id covers the service keys in slice order) -/
+theorem c18_order_full_old_fails : ¬ C18_order_full_old := by
+  intro hall
+  let S : Suite := { name := [69], psize := 1, ssize := 1, ptype := 0 }
+  let ea : SvcCfg := { name := [97], suite := [69], pub := { s := [48, 49], ok := true }, priv := [] }
+  let eb : SvcCfg := { name := [98], suite := [69], pub := { s := [48, 50], ok := true }, priv := [] }
+  have := hall [([97], S), ([98], S)] [ea, eb] [eb, ea] (List.Perm.swap eb ea []) (by unfold DistinctNames; decide)
+  revert this
+  decide
+
+/-- on the repaired code the same two orders give the same slice (non-vacuity of the premises of
+`parseServices_perm`: a permutation with distinct names) -/
+example :
+    let S : Suite := { name := [69], psize := 1, ssize := 1, ptype := 0 }
+    let ea : SvcCfg := { name := [97], suite := [69], pub := { s := [48, 49], ok := true }, priv := [] }
+    let eb : SvcCfg := { name := [98], suite := [69], pub := { s := [48, 50], ok := true }, priv := [] }
+    parseServices [([97], S), ([98], S)] [ea, eb] = parseServices [([97], S), ([98], S)] [eb, ea] :=
+  parseServices_perm (List.Perm.swap _ _ []) (by decide)
+
+/-! ### write-out and re-read -/
+
+theorem fillDesc_idem (si : ServerId) : fillDesc (fillDesc si) = fillDesc si := by
+  unfold fillDesc
+  by_cases h : si.description = []
+  · simp [h, placeholder]
+  · simp [h]
+
+theorem rosterPre_fillDesc (g : List ServerId) : rosterPre (g.map fillDesc) = rosterPre g := by
+  induction g with
+  | nil => rfl
+  | cons s r ih => simp [rosterPre, ih, fillDesc]
+
+theorem sameType_fillDesc (g : List ServerId) : sameType (g.map fillDesc) = sameType g := by
+  cases g with
+  | nil => rfl
+  | cons s r => simp [sameType, fillDesc, List.all_map, Function.comp_def]
+
+theorem write_read_servers {suites : List Suite} {reg : List (Str × Suite)} {S : Suite}
+    (hS : findSuite suites (defaultSuite S.name) = some S) (hpos : 0 < S.psize)
+    (hreg : ∀ e ∈ reg, 0 < e.2.psize) :
+    ∀ (cfg : List ServerToml) (g : List ServerId),
+      (∀ s ∈ cfg, findSuite suites (defaultSuite s.suite) = some S) →
+      (∀ s ∈ cfg, ∀ c ∈ s.services, c.priv = []) →
+      readServers suites reg cfg = .ok g →
+      ∃ ts, writeGroup S reg g = some ts ∧ readServers suites reg ts = .ok (g.map fillDesc)
+  | [], g, _, _, h => by
+    simp only [readServers, Res.ok.injEq] at h
+    subst h
+    exact ⟨[], rfl, rfl⟩
+  | s :: r, g, hsu, hpr, h => by
+    simp only [readServers] at h
+    cases ht : toServerIdentity suites reg s with
+    | err => simp [ht] at h
+    | panic => simp [ht] at h
+    | ok si =>
+      simp only [ht] at h
+      cases hr : readServers suites reg r with
+      | err => simp [hr] at h
+      | panic => simp [hr] at h
+      | ok l =>
+        simp only [hr, Res.ok.injEq] at h
+        subst h
+        obtain ⟨t, hw, hrd⟩ := write_read_server hS hpos hreg (hsu s (by simp)) (hpr s (by simp)) ht
+        obtain ⟨ts, hws, hrds⟩ := write_read_servers hS hpos hreg r l
+          (fun x hx => hsu x (by simp [hx])) (fun x hx => hpr x (by simp [hx])) hr
+        refine ⟨t :: ts, ?_, ?_⟩
+        · unfold writeGroup at hws ⊢
+          simp [List.mapM_cons, hw, hws]
+        · simp [readServers, hrd, hrds]
+
+/-- **writing out what was read and reading it again yields the same identities and the same roster
+id**: a group read from a file whose servers all use suite `S`, written with `Group.Toml(S)` /
+`GroupToml.String` and read again, gives exactly the identities of the first read — same keys,
+addresses, URLs, service identities in the same order — with the one documented difference that an
+empty description comes back as the placeholder text; the roster-id pre-image is unchanged and a
+second round changes nothing any more.  Hypotheses: the written suite name finds the suite again,
+key sizes are positive, group files carry no private service keys; the TOML library returns the
+structure it was given (modelling assumption). -/
+theorem c18_write_read_same (suites : List Suite) (reg : List (Str × Suite)) (S : Suite)
+    (hS : findSuite suites (defaultSuite S.name) = some S) (hpos : 0 < S.psize)
+    (hreg : ∀ e ∈ reg, 0 < e.2.psize)
+    (cfg : List ServerToml) (g : List ServerId)
+    (hsuite : ∀ s ∈ cfg, findSuite suites (defaultSuite s.suite) = some S)
+    (hpriv : ∀ s ∈ cfg, ∀ c ∈ s.services, c.priv = [])
+    (h : readGroup suites reg cfg = .ok g) :
+    ∃ ts, writeGroup S reg g = some ts ∧
+      readGroup suites reg ts = .ok (g.map fillDesc) ∧
+      rosterPre (g.map fillDesc) = rosterPre g ∧
+      (∀ si ∈ g, si.description ≠ [] → fillDesc si = si) ∧
+      (g.map fillDesc).map fillDesc = g.map fillDesc := by
+  unfold readGroup at h
+  cases hr : readServers suites reg cfg with
+  | err => simp [hr] at h
+  | panic => simp [hr] at h
+  | ok g0 =>
+    simp only [hr] at h
+    by_cases hst : sameType g0 = true
+    · simp only [hst, if_true, Res.ok.injEq] at h
+      subst h
+      obtain ⟨ts, hw, hrd⟩ := write_read_servers hS hpos hreg cfg g0 hsuite hpriv hr
+      refine ⟨ts, hw, ?_, rosterPre_fillDesc g0, ?_, ?_⟩
+      · unfold readGroup
+        simp [hrd, sameType_fillDesc, hst]
+      · intro si _ hd
+        unfold fillDesc
+        simp [hd]
+      · simp [List.map_map, Function.comp_def, fillDesc_idem]
+    · simp [hst] at h
+
+/-- saving a private configuration that was loaded and loading it again (with the `Services` map
+in any iteration order) yields the same server identity -/
+theorem c18_private_write_read_same (suites : List Suite) (reg : List (Str × Suite))
+    (hc : PrivCfg) (svcs' : List SvcCfg) (hp : hc.services.Perm svcs') (hn : DistinctNames hc.services) :
+    getServerIdentity suites reg (loadCothority { loadCothority hc with services := svcs' }) =
+      getServerIdentity suites reg (loadCothority hc) := by
+  have hidem : defaultSuite (defaultSuite hc.suite) = defaultSuite hc.suite := by
+    unfold defaultSuite
+    by_cases h : hc.suite = []
+    · simp [h, ed25519]
+    · simp [h]
+  unfold getServerIdentity loadCothority
+  simp only [hidem]
+  rw [← parseServices_perm hp hn]
+
+/-! ### non-vacuity of the hypotheses of `c18_write_read_same` -/
+
+/-- a suite table, a registry and a one-server group file (suite name omitted, key `"01"`, empty
+description) that satisfy every hypothesis; the file reads as one identity with key `[1]` -/
+example :
+    let S : Suite := { name := ed25519, psize := 1, ssize := 1, ptype := 0 }
+    let cfg : List ServerToml :=
+      [{ address := [], suite := [], pub := { s := [48, 49], ok := true }, description := [], url := [],
+         services := [] }]
+    findSuite [S] (defaultSuite S.name) = some S ∧ 0 < S.psize ∧
+    (∀ s ∈ cfg, findSuite [S] (defaultSuite s.suite) = some S) ∧
+    (∀ s ∈ cfg, ∀ c ∈ s.services, c.priv = []) ∧
+    readGroup [S] [] cfg = .ok [{ pub := [1], ptype := 0, services := [], address := [],
+                                  description := [], url := [], priv := none }] := by
+  refine ⟨by decide, by decide, by decide, by decide, ?_⟩
+  simp [readGroup, readServers, toServerIdentity, parseServices, collectServices, sortServices, sameType]
+  decide
